@@ -1,47 +1,43 @@
-(* C10 property theorems (statements only; proofs in ListInv.v / Inv.v / Inv3.v / Proofs.v).
+(* C10 property theorems, phase 2: the FULL statements about the repaired code (repairs F14, F15, F15b, C10-N1).
+   Statements only; proofs in ListInv.v / Inv.v / Proofs.v.
    [run (init k t) es] is the connection machine of Model.v after the event list es; [reported] is the
-   chronological ConnectionStateChangedEvent stream.  Theorems quantify over EVERY event list.
-
-   The statements of the property text are FALSE of the faithful model of today's code (findings F14,
-   F15, C10-N1): *_refuted.  What holds is proved as *_partial; the premises are ghost flags that the
-   model sets exactly in the three defective steps:
-     late_accept  : accept() ran set_state(CONNECTED) on a connection that is CLOSING/CLOSED   (F14)
-     late_connect : connect() ran set_state(CONNECTED) on a connection closed meanwhile        (C10-N1)
-     race_dc      : an effective disconnect() ran while the attempt was in open_connection     (C10-N1)
-     abandoned    : the attempt was cancelled in open_connection on a non-closing connection   (F15) *)
+   chronological ConnectionStateChangedEvent stream.  Every theorem quantifies over EVERY event list. *)
 From Slsk Require Import Base.Tac.
 From Slsk Require Import C10.Model C10.Proofs.
 
-Theorem C10_monotone_partial : forall k t es,
-  let c := run (init k t) es in
-  late_accept c = false -> late_connect c = false -> chain k (reported c).
-Proof. exact monotone_partial. Qed.
+(* reported states only move forward; only the server connection may go CLOSED -> CONNECTING *)
+Theorem C10_monotone : forall k t es, chain k (reported (run (init k t) es)).
+Proof. exact monotone. Qed.
 
-Theorem C10_monotone_refuted : exists k t es, ~ chain k (reported (run (init k t) es)).
-Proof. exact monotone_refuted. Qed.
+(* CLOSED is reported at most once for a peer connection and nothing is reported after it *)
+Theorem C10_closed_once_last : forall k t es, k <> Server -> closed_last (reported (run (init k t) es)).
+Proof. exact closed_once_last. Qed.
 
-Theorem C10_closed_once_last_partial : forall k t es,
-  let c := run (init k t) es in
-  k <> Server -> late_accept c = false -> late_connect c = false -> closed_last (reported c).
-Proof. exact closed_once_last_partial. Qed.
+Theorem C10_closed_is_final : forall k t es, k <> Server ->
+  let c := run (init k t) es in In CLOSED (reported c) -> st c = CLOSED.
+Proof. exact closed_is_final. Qed.
 
-Theorem C10_closed_once_last_refuted : exists k t es, k <> Server /\ ~ closed_last (reported (run (init k t) es)).
-Proof. exact closed_once_last_refuted. Qed.
+(* after CLOSED was reported a read delivers nothing ... *)
+Theorem C10_no_delivery_after_closed : forall k t es x, k <> Server ->
+  let c := run (init k t) es in In CLOSED (reported c) -> delivered (step c (ReaderGets x)) = delivered c.
+Proof.
+  intros k t es x Hk c Hin. apply no_delivery_while_closing.
+  pose proof (closed_is_final k t es Hk Hin) as E. fold c in E. now rewrite E.
+Qed.
 
-(* bad_deliv / bad_sent count the MessageReceivedEvent deliveries / transport writes that happen after
-   CLOSED was reported (Model.bump_delivered / bump_sent are the only places where delivered / sent grow) *)
-Theorem C10_no_delivery_no_send_after_closed_partial : forall k t es,
-  let c := run (init k t) es in
-  k <> Server -> late_accept c = false -> late_connect c = false -> bad_deliv c = 0 /\ bad_sent c = 0.
-Proof. exact ghosts_partial. Qed.
+(* ... and a send is a no-op *)
+Theorem C10_send_after_closed_noop : forall k t es m, k <> Server ->
+  let c := run (init k t) es in In CLOSED (reported c) -> step c (Send m) = c.
+Proof.
+  intros k t es m Hk c Hin. apply send_closing_noop.
+  pose proof (closed_is_final k t es Hk Hin) as E. fold c in E. now rewrite E.
+Qed.
 
-Theorem C10_no_delivery_after_closed_refuted : exists k t es c x,
-  k <> Server /\ c = run (init k t) es /\ In CLOSED (reported c) /\ delivered (step c (ReaderGets x)) = S (delivered c).
-Proof. exact no_delivery_after_closed_refuted. Qed.
-
-Theorem C10_send_after_closed_noop_refuted : exists k t es c,
-  k <> Server /\ c = run (init k t) es /\ In CLOSED (reported c) /\ sent (step c (Send SOk)) = S (sent c).
-Proof. exact send_after_closed_refuted. Qed.
+(* the same for every kind of step (also the init message written by the attempt coroutine): the counters of
+   deliveries / transport writes made after CLOSED (Model.bump_delivered / bump_sent) stay 0 *)
+Theorem C10_nothing_after_closed : forall k t es, k <> Server ->
+  let c := run (init k t) es in bad_deliv c = 0 /\ bad_sent c = 0.
+Proof. exact ghosts_zero. Qed.
 
 (* in every state whatsoever: while the state is CLOSING/CLOSED a send is a no-op, a read delivers nothing,
    a further disconnect() reports nothing *)
@@ -57,10 +53,13 @@ Proof.
   - now apply disconnect_idempotent.
 Qed.
 
-(* registry: every disconnect() that passes its guard reports CLOSING and then CLOSED (at once when there is no
-   writer, else after wait_closed), and CLOSED removes the connection from the registry, closes the writer.
-   (Exactness of the registry at quiescence over all histories is NOT proved here: it is checked by the
-   correspondence runs and the monitor; it is false today: next theorem.) *)
+(* the registry is exact at every quiescent moment: a peer connection is in Network.peer_connections iff it is
+   open or is being opened by an attempt that is still in open_connection; the server connection never is *)
+Theorem C10_registry_exact : forall k t es,
+  let c := run (init k t) es in
+  quiescent c = true -> in_reg c = should_be_registered c.
+Proof. exact registry_exact. Qed.
+
 Theorem C10_close_unregisters : forall c,
   (in_reg (finish_close c) = false /\ st (finish_close c) = CLOSED /\ writer (finish_close c) = WNone) /\
   (closing (st c) = false ->
@@ -69,17 +68,19 @@ Theorem C10_close_unregisters : forall c,
    (writer c <> WNone -> firstn 1 (rep c') = [CLOSING] /\ closers c' = S (closers c) /\ in_reg c' = in_reg c)).
 Proof. intros c. split; [apply closed_unregisters|apply closing_then_closed]. Qed.
 
-Theorem C10_registry_exact_refuted : exists k t es,
-  let c := run (init k t) es in quiescent c = true /\ in_reg c <> should_be_registered c.
-Proof. exact registry_exact_refuted. Qed.
-
-(* non-vacuity: full life cycles that satisfy the premises of the partial theorems, and a server reconnect *)
+(* non-vacuity: life cycles incl. the formerly defective histories (F14: EOF before the init message; F15: cancelled
+   connect; C10-N1: disconnect during connect, then the socket opens), and a server reconnect *)
 Example C10_nonvacuous :
   let o := run (init Outgoing TP) [Create; ConnectStart; ConnectOk; SendInit SOk; ReaderGets XMsg; ReaderGets XEof; CloseDone] in
   let i := run (init Incoming TP) [Accept; InitRead (IPeerInit TD); AcceptReturns; ReaderGets XMsg; Disconnect RRequested; CloseDone] in
   let s := run (init Server TP) [ConnectStart; ConnectOk; StartReader; ReaderGets XEof; CloseDone; ConnectStart; ConnectOk] in
-  (reported o = [CONNECTING; CONNECTED; CLOSING; CLOSED] /\ late_accept o = false /\ late_connect o = false /\ delivered o = 1 /\
-   quiescent o = true /\ abandoned o = false /\ race_dc o = false) /\
-  (reported i = [CONNECTED; CLOSING; CLOSED] /\ late_accept i = false /\ late_connect i = false /\ delivered i = 1 /\ quiescent i = true) /\
-  (reported s = [CONNECTING; CONNECTED; CLOSING; CLOSED; CONNECTING; CONNECTED] /\ late_connect s = false).
+  let f14 := run (init Incoming TP) [Accept; InitRead IEof; CloseDone; AcceptReturns] in
+  let f15 := run (init Outgoing TP) [Create; ConnectStart; Cancel] in
+  let n1 := run (init Outgoing TP) [Create; ConnectStart; Disconnect RRequested; ConnectOk; SendInit SOk; ReaderGets XMsg; Send SOk] in
+  (reported o = [CONNECTING; CONNECTED; CLOSING; CLOSED] /\ delivered o = 1 /\ quiescent o = true /\ in_reg o = false) /\
+  (reported i = [CONNECTED; CLOSING; CLOSED] /\ delivered i = 1 /\ quiescent i = true) /\
+  (reported s = [CONNECTING; CONNECTED; CLOSING; CLOSED; CONNECTING; CONNECTED]) /\
+  (reported f14 = [CONNECTED; CLOSING; CLOSED] /\ quiescent f14 = true /\ in_reg f14 = false) /\
+  (reported f15 = [CONNECTING; CLOSING; CLOSED] /\ quiescent f15 = true /\ in_reg f15 = false /\ res f15 = ResCancelled) /\
+  (reported n1 = [CONNECTING; CLOSING; CLOSED] /\ delivered n1 = 0 /\ sent n1 = 0 /\ writer n1 = WNone /\ res n1 = ResFail).
 Proof. vm_compute. repeat split. Qed.
